@@ -1,6 +1,7 @@
 import Sebuf.Build
 import Sebuf.Lemmas.Ident
 import Sebuf.Lemmas.PropsC13
+import Sebuf.Lemmas.PropName
 /-!
 # C13 — everything the generators emit builds: Go compiles and vets, TypeScript loads
 
@@ -124,12 +125,16 @@ def getFile : File :=
     services := [getSvc] }
 def getRq : Request := { files := [getFile] }
 
-/-- one accepted GET route shows the client's field-identifier finding; the TS server route of the
-same RPC parses the URL for path AND query parameters — before the repair that declared
-`const url` twice (entry `ts:ts_server_duplicate_const_url`, fixed), now no load defect is predicted. -/
+/-- one accepted GET route: the Go client used to spell the path variable's field `With2digits`
+(protoc-gen-go: `With2Digits`; entry `go:client_path_field_identifier`, fixed by /repo 9cb4f02 —
+the accessor is now the field's own name); the TS server route of the same RPC parses the URL for
+path AND query parameters — before the repair that declared `const url` twice (entry
+`ts:ts_server_duplicate_const_url`, fixed), now no load defect is predicted. -/
 theorem w_client_ident_and_ts_url :
     runGoHttp getRq = none ∧ runTsServer getRq = none ∧
-    "client_path_field_identifier" ∈ goDefects getRq "go-client" ∧ goDefects getRq "go-http" = [] ∧
+    clientIdentDefectsBeforeFix getRq = ["client_path_field_identifier"] ∧ goDefects getRq "go-client" = [] ∧
+    clientPathAccessor getReq "with2digits".toList = "req.With2Digits".toList ∧
+    clientPathAccessorBeforeFix "with2digits".toList = "req.With2digits".toList ∧ goDefects getRq "go-http" = [] ∧
     tsServerTwoUrlUses getRq = ["Get".toList] ∧ tsServerDefectsBeforeFix getRq = ["ts_server_duplicate_const_url"] ∧
     tsServerDefects getRq = [] := by decide
 
@@ -155,9 +160,25 @@ theorem w_header_helper_redeclared :
 /-- header names that differ only by the `X-` prefix collide as well. -/
 theorem header_func_name_not_injective : headerNameToFuncName "X-Api-Key".toList = headerNameToFuncName "Api-Key".toList := by decide
 
-/-- **identifier agreement, partial**: on plain snake_case names (`^[a-z]+(_[a-z]+)*$`) the Go
-client's spelling of a path variable's field is the one protoc-gen-go gives the struct field,
-so `client_path_field_identifier` cannot arise. -/
+/-- **identifier agreement**: the Go client reads a path variable through the name protoc-gen-go
+gives the bound field, for EVERY field name (full, since /repo 9cb4f02), and through the getter
+when the field is proto3 `optional` (the struct member is a pointer: `fmt.Sprint` of it printed an
+address into the URL). -/
+theorem client_accessor_is_field_name (input : Message) (f : Field) (hf : f ∈ input.fields)
+    (hd : (input.fields.map Field.name).Nodup) :
+    clientPathAccessor input f.name =
+      (if f.card == .optional then "req.Get".toList ++ goCamelCase f.name ++ "()".toList else "req.".toList ++ goCamelCase f.name) := by
+  unfold clientPathAccessor
+  rw [PropName.find_name_of_distinct input.fields f hf hd]
+
+/-- regression witness: an `optional` path-bound field is read through its getter. -/
+theorem w_optional_path_field_getter :
+    let m := mk1 "Req" [{ name := "edition".toList, kind := .string, card := .optional }]
+    clientPathAccessor m "edition".toList = "req.GetEdition()".toList ∧
+    clientPathAccessorBeforeFix "edition".toList = "req.Edition".toList := by decide
+
+/-- before the repair the two spellings agreed on plain snake_case names (`^[a-z]+(_[a-z]+)*$`) only:
+why the repository's goldens never showed `client_path_field_identifier`. -/
 theorem ident_agree_partial (p : Str) (h : simpleSnake p = true) : snakeToUpperCamel p = goCamelCase p :=
   snakeToUpperCamel_eq_goCamelCase p h
 
